@@ -19,6 +19,10 @@ type Env struct {
 	ExtBasic      []*Decl
 	Opt           EnvOpt
 	foreign       []*Decl // declarations of ext packages generated before the current one
+	// Generics are generic struct declarations of the subject package, GenericInsts their instantiations
+	// (two per generic: the first over a type without references, the second over one that holds references).
+	Generics     []*GenericDecl
+	GenericInsts []*Decl
 	// Aliases are alias declarations of the subject package (type A0 = T) over declarations that precede the
 	// general structs, so that struct fields can be spelled through them.
 	Aliases []*AliasDecl
@@ -46,6 +50,7 @@ type EnvOpt struct {
 	PtrKeys       bool // also declare a key struct that holds a pointer (legal Go map key, compared by identity)
 	NoFloatKeys   bool
 	NoBlankFields bool // by default one struct in four has a blank field (_ T) of a basic type
+	NoGenerics    bool // by default one environment in three declares 1-2 generic structs and instantiates each twice
 	NoAliases     bool // by default half of the environments declare 1-2 aliases and use them as field / argument types
 	NoUnicode     bool // by default one environment in five gives its general structs names that start with a multi-byte letter
 	NoResultNames bool // by default one signature in three has named results
@@ -194,6 +199,74 @@ func DrawEnv(t *rapid.T, opt EnvOpt) *Env {
 			u = SliceOf(SliceOf(e.drawLeaf(t, false)))
 		}
 		e.NamedComp = append(e.NamedComp, &Decl{Name: fmt.Sprintf("N%d", i), Under: u})
+	}
+	// generic structs instantiated over what exists so far
+	if !opt.NoGenerics && rapid.IntRange(0, 2).Draw(t, "generics") == 0 {
+		ng := rapid.IntRange(1, 2).Draw(t, "ngenerics")
+		for i := 0; i < ng; i++ {
+			g := &GenericDecl{Name: fmt.Sprintf("G%d", i), NParams: rapid.IntRange(1, 2).Draw(t, "gparams")}
+			nf := rapid.IntRange(g.NParams, g.NParams+2).Draw(t, "gfields")
+			for j := 0; j < nf; j++ {
+				f := GField{Name: e.fieldName(t, j), Param: j % g.NParams, Shape: rapid.IntRange(0, 5).Draw(t, "gshape")}
+				if j < g.NParams && f.Shape == 5 {
+					f.Shape = 0 // every parameter is used at least once
+				}
+				g.Fields = append(g.Fields, f)
+			}
+			e.Generics = append(e.Generics, g)
+			for inst := 0; inst < 2; inst++ {
+				var args []*Type
+				for k := 0; k < g.NParams; k++ {
+					var a *Type
+					if inst == 0 {
+						// no references: plain assignment copies it
+						switch rapid.IntRange(0, 2).Draw(t, "garg0") {
+						case 0:
+							a = B(pick(t, "gargb", []string{"int", "string", "float64", "bool", "uint8"}))
+						case 1:
+							if len(e.NamedBasic) > 0 {
+								a = NamedT(pick(t, "gargnb", e.NamedBasic))
+							} else {
+								a = B("int64")
+							}
+						default:
+							a = ArrayOf(2, B(pick(t, "garga", []string{"int", "string"})))
+						}
+					} else {
+						switch rapid.IntRange(0, 4).Draw(t, "garg1") {
+						case 0:
+							a = PtrTo(B(pick(t, "gargp", []string{"string", "int", "float64"})))
+						case 1:
+							a = SliceOf(B(pick(t, "gargs", []string{"int", "string", "byte"})))
+						case 2:
+							a = MapOf(B("string"), B("int"))
+						case 3:
+							if len(e.ExtStructs) > 0 {
+								a = NamedT(pick(t, "gargx", e.ExtStructs))
+							} else {
+								a = PtrTo(B("int"))
+							}
+						default:
+							if len(e.KeyStructs) > 0 {
+								a = PtrTo(NamedT(pick(t, "gargk", e.KeyStructs)))
+							} else {
+								a = SliceOf(B("int"))
+							}
+						}
+					}
+					args = append(args, a)
+				}
+				dup := false
+				for _, o := range e.GenericInsts {
+					if o.Generic == g && NamedT(o).Str(Qual{Subj: "p", Canon: true}) == NamedT(g.Instantiate(args)).Str(Qual{Subj: "p", Canon: true}) {
+						dup = true
+					}
+				}
+				if !dup {
+					e.GenericInsts = append(e.GenericInsts, g.Instantiate(args))
+				}
+			}
+		}
 	}
 	// aliases over what exists so far (so that the general structs can use them by value)
 	if !opt.NoAliases && rapid.Bool().Draw(t, "aliases") {
@@ -473,6 +546,9 @@ func (e *Env) DrawKey(t *rapid.T, depth int) *Type {
 
 // drawType draws a type; byValue are structs usable by value, all are structs usable behind * [] map.
 func (e *Env) drawType(t *rapid.T, depth int, byValue, all []*Decl, self *Decl) *Type {
+	if len(e.GenericInsts) > 0 && rapid.IntRange(0, 5).Draw(t, "usegeneric") == 0 {
+		return NamedT(pick(t, "genericinst", e.GenericInsts))
+	}
 	if len(e.Aliases) > 0 && rapid.IntRange(0, 7).Draw(t, "usealias") == 0 {
 		a := pick(t, "alias", e.Aliases)
 		return a.Target.Aliased(a.Name)
